@@ -466,7 +466,12 @@ type ExploreStats struct {
 	Decisions  int
 	MaxPreempt int
 	Capped     bool
+	TimedOut   bool
 }
+
+// Stop, when set, is consulted before every execution: a true answer ends the
+// exploration (ExploreStats.TimedOut), which the caller reports as inexhaustive.
+var Stop func() bool
 
 // Explore enumerates all schedules with at most `bound` preemptions.  run is
 // called with a choice prefix and must build a fresh instance, call Run, and
@@ -477,6 +482,10 @@ func Explore(bound int, maxExec int, run func(prefix []int) *Exec, visit func(*E
 	rec = func(prefix []int) {
 		if maxExec > 0 && st.Executions >= maxExec {
 			st.Capped = true
+			return
+		}
+		if st.TimedOut || (Stop != nil && Stop()) {
+			st.TimedOut = true
 			return
 		}
 		ex := run(prefix)
